@@ -10,9 +10,17 @@ def main():
     ap.add_argument("--replay")
     a = ap.parse_args()
     seed = int(os.environ.get("VERIF_SEED", "0"))
+    replay_ob = None
     if a.replay:
-        from pyvc.replay import replay
-        sys.exit(replay(a.prop, a.replay))
+        # replay = re-run exactly the failed obligation: a T3 contract on the recorded input, a deductive obligation from the current source
+        w = json.load(open(a.replay))
+        replay_ob = w["obligation"]
+        os.environ["VERIF_REPLAY_OB"] = replay_ob
+        inp = (w.get("witness") or {}).get("input") if isinstance(w.get("witness"), dict) else None
+        if w.get("tier") == "T3" and inp is not None:
+            os.environ["VERIF_REPLAY_INPUT"] = json.dumps(inp)
+        os.environ["VERIF_EVIDENCE_DIR"] = os.path.join(os.environ.get("VERIF_OUT_DIR", os.path.join(os.path.dirname(os.path.dirname(os.path.abspath(__file__))), "out")), "replay-evidence")
+        print(f"[{a.prop}] replaying obligation {replay_ob} ({w.get('tier')}) from {a.replay}")
     rep = Report(a.prop, a.tier, seed)
     try:
         mod = importlib.import_module("props." + a.prop)
@@ -24,6 +32,13 @@ def main():
         traceback.print_exc()
         print(f"[{a.prop}] engine failure (exit 3): this is a fault of the checker, not a verdict on the property")
         sys.exit(3)
+    if replay_ob is not None:
+        rep.obs = [o for o in rep.obs if o.id == replay_ob]
+        if not rep.obs:
+            print(f"[{a.prop}] obligation {replay_ob} is not generated from the current source: nothing to replay (exit 2)")
+            sys.exit(2)
+        for o in rep.obs:
+            print(f"  {o.id}: {o.status} {o.detail[:300]}")
     sys.exit(finish(rep))
 
 
